@@ -365,7 +365,7 @@ func runCase(c *h.Case, cc *caseCfg, sv *srvInfo) {
 		px.reliable = cc.A.Proto != "kcp" && !(viaB && cc.B.Proto == "kcp")
 		px.kcpNoMux = !px.reliable && !sv.tcpMux
 		ports := pa.Block(2)
-		be, err := startBackend(cs, px, fmt.Sprintf("B%d.%d", c.Idx, i), ports[0])
+		be, err := newBackend(cs, px, fmt.Sprintf("B%d.%d", c.Idx, i), ports[0])
 		if err != nil {
 			run.Inconclusive("backend listen failed")
 			return
@@ -400,6 +400,7 @@ func runCase(c *h.Case, cc *caseCfg, sv *srvInfo) {
 			bText += visitorTOML(px.name+".vx", "xtcp", px.name+"x", ports[1], p, px.name+".v")
 			visitorPorts = append(visitorPorts, ports[1])
 		}
+		be.start()
 		aText += proxyTOML(px.name, p, ports[0], ports[1], px.domain)
 		names = append(names, px.name)
 		cs.pxs = append(cs.pxs, px)
